@@ -37,6 +37,18 @@ package main
 //   envleak    the environment secret occurs in the result, the error text or the output
 //   envchange  the process environment differs afterwards
 //   exit       the process ended during the probe without a Go panic or fatal error
+//   fatal      the Go runtime ended the process during the probe: a fatal error (stack overflow: recover()
+//              cannot stop it) or a panic that nothing recovered (the in-process hosts recover every panic of
+//              the evaluating goroutine, as a careful embedder does; cmd/zygo is taken as it is)
+// exit and fatal are the two observations of ONE effect, the end of the host process.  They are judged by
+// the host protocol: after every probe the host must still be there and answer (the worker writes the
+// observation of the probe and goes on; the repl evaluates the sentinel lines); the field host of a probe is
+// "up", "exit", "fatal", or -- no observation of the effect, the harness or the machine ended the host --
+// "stopped" (no answer within the time limit: the harness stopped it) and "starved" (the machine refused
+// memory: fatal error out of memory, or a kill from outside).  Every host of this family bounds its goroutine
+// stacks to sbMaxStack bytes (debug.SetMaxStack; cmd/zygo through the environment variable ZV_MAXSTACK read by
+// one init function that lib/props/C08.py adds to the build with -overlay): Go recursion without a bound ends
+// in the same fatal error as at Go's default of 1 GB, within a second instead of minutes.
 // Reading the canary NAME back is not an event.  A probe that raised an event
 // in a batch is re-run alone in a fresh process and directory; the recorded
 // event set is the union (the detail field keeps both).
@@ -52,10 +64,12 @@ import (
 	"go/ast"
 	"go/parser"
 	"go/token"
+	"io"
 	"os"
 	"os/exec"
 	"path/filepath"
 	"runtime"
+	"runtime/debug"
 	"sort"
 	"strconv"
 	"strings"
@@ -85,28 +99,57 @@ type sbArg struct {
 type sbShape struct {
 	name string
 	args []sbArg
+	// value: an argument shape about the VALUE handed over, not about a canary: rendered for the vectors of the
+	// base variant only (no prelude, first interpreter of the process): what a script has bound or what the
+	// process did before is a dimension of the bindings, not of the data
+	value bool
 }
 
 const sbPH = "@D@" // placeholder of the throw-away directory in recorded texts
 
 var sbShapes = []sbShape{
-	{"none", nil},
-	{"path-str", []sbArg{{`"` + sbPH + `/zvcanary"`, false}}},
-	{"path-sym", []sbArg{{"zvcanary", true}}},
-	{"path2-str", []sbArg{{`"` + sbPH + `/zvcanary2"`, false}}},
-	{"path-arr", []sbArg{{`["` + sbPH + `/zvcanary"]`, false}}},
-	{"val-path", []sbArg{{`"zvdata"`, false}, {`"` + sbPH + `/zvcreate"`, false}}},
-	{"path-val", []sbArg{{`"` + sbPH + `/zvcreate"`, false}, {`"zvdata"`, false}}},
-	{"val-canary", []sbArg{{`["zvdata"]`, false}, {`"` + sbPH + `/zvcanary"`, false}}},
-	{"hash-path", []sbArg{{`(hash a: 1)`, false}, {`"` + sbPH + `/zvcreate"`, false}}},
-	{"cmd-str", []sbArg{{`"touch ` + sbPH + `/zvmarker"`, false}}},
-	{"cmd-words", []sbArg{{"touch", true}, {"zvmarker", true}}},
-	{"env-name", []sbArg{{`"ZV_CANARY_ENV"`, false}}},
-	{"env-sym", []sbArg{{"ZV_CANARY_ENV", true}}},
-	{"env-set", []sbArg{{`"ZV_CANARY_ENV"`, false}, {`"zvchanged"`, false}}},
-	{"env-new", []sbArg{{`"ZV_NEW_ENV"`, false}, {`"zvnew"`, false}}},
-	{"int", []sbArg{{"7", false}}},
-	{"int0", []sbArg{{"0", false}}},
+	{"none", nil, false},
+	{"path-str", []sbArg{{`"` + sbPH + `/zvcanary"`, false}}, false},
+	{"path-sym", []sbArg{{"zvcanary", true}}, false},
+	{"path2-str", []sbArg{{`"` + sbPH + `/zvcanary2"`, false}}, false},
+	{"path-arr", []sbArg{{`["` + sbPH + `/zvcanary"]`, false}}, false},
+	{"val-path", []sbArg{{`"zvdata"`, false}, {`"` + sbPH + `/zvcreate"`, false}}, false},
+	{"path-val", []sbArg{{`"` + sbPH + `/zvcreate"`, false}, {`"zvdata"`, false}}, false},
+	{"val-canary", []sbArg{{`["zvdata"]`, false}, {`"` + sbPH + `/zvcanary"`, false}}, false},
+	{"hash-path", []sbArg{{`(hash a: 1)`, false}, {`"` + sbPH + `/zvcreate"`, false}}, false},
+	{"cmd-str", []sbArg{{`"touch ` + sbPH + `/zvmarker"`, false}}, false},
+	{"cmd-words", []sbArg{{"touch", true}, {"zvmarker", true}}, false},
+	{"env-name", []sbArg{{`"ZV_CANARY_ENV"`, false}}, false},
+	{"env-sym", []sbArg{{"ZV_CANARY_ENV", true}}, false},
+	{"env-set", []sbArg{{`"ZV_CANARY_ENV"`, false}, {`"zvchanged"`, false}}, false},
+	{"env-new", []sbArg{{`"ZV_NEW_ENV"`, false}, {`"zvnew"`, false}}, false},
+	{"int", []sbArg{{"7", false}}, false},
+	{"int0", []sbArg{{"0", false}}, false},
+	// value shapes: data a script can build with the names of every sandboxed configuration, on which Go code
+	// of the library that walks its argument by recursion does not come back (the host must survive the call):
+	// a value that contains itself, through an array / a hash / handed over twice; a text nested without bound;
+	// a form that leaves no value in the place of an argument, alone and inside an array literal
+	{"cyc-arr", []sbArg{{sbCycArr, false}}, true},
+	{"cyc-hash", []sbArg{{sbCycHash, false}}, true},
+	{"cyc-two", []sbArg{{sbCycArr, false}, {"zvc", false}}, true},
+	{"deep-sq", []sbArg{{sbDeepText("["), false}}, true},
+	{"deep-par", []sbArg{{sbDeepText("("), false}}, true},
+	{"noval", []sbArg{{"(begin)", false}}, true},
+	{"noval-arr", []sbArg{{"1", false}, {"[(begin)]", false}}, true},
+}
+
+const (
+	sbCycArr  = `(begin (def zvc [1]) (aset zvc 0 zvc) zvc)`
+	sbCycHash = `(begin (def zvh (hash a: 1)) (hset zvh a: zvh) zvh)`
+	// sbDeepDoublings: the nested text has 2^sbDeepDoublings opening brackets: far more levels than the stack
+	// limit of the hosts of this family (sbMaxStack) has room for at one Go frame per level
+	sbDeepDoublings = 18
+)
+
+// sbDeepText: script text that builds a string of 2^sbDeepDoublings times open (by doubling: 18 steps).
+func sbDeepText(open string) string {
+	return `(begin (def zvs "` + open + `") (for [(def zvi 0) (< zvi ` + strconv.Itoa(sbDeepDoublings) +
+		`) (set zvi (+ zvi 1))] (set zvs (concat zvs zvs))) zvs)`
 }
 
 func sbShapeByName(n string) *sbShape {
@@ -232,7 +275,31 @@ func sbNewEnv(cfg string) *zygo.Zlisp {
 	}
 	env := zygo.NewZlisp()
 	env.StandardSetup()
+	// the control of the observation "fatal": two primitives of the HOST with the capability to end it, bound
+	// in the unsandboxed configuration only (Sandbox!HostFaults).  Called without arguments they end the
+	// process the way a defect of the library would: Go recursion without a bound, and a panic that no
+	// recover() of the host can reach (in a goroutine of its own).
+	env.AddFunction("zvhostoverflow", func(env *zygo.Zlisp, name string, args []zygo.Sexp) (zygo.Sexp, error) {
+		if len(args) == 0 {
+			return &zygo.SexpInt{Val: int64(sbRecurse(1))}, nil
+		}
+		return zygo.SexpNull, nil
+	})
+	env.AddFunction("zvhostpanic", func(env *zygo.Zlisp, name string, args []zygo.Sexp) (zygo.Sexp, error) {
+		if len(args) == 0 {
+			go func() { panic("zvhostpanic: a panic outside the evaluating goroutine") }()
+			time.Sleep(2 * time.Second)
+		}
+		return zygo.SexpNull, nil
+	})
 	return env
+}
+
+//go:noinline
+func sbRecurse(n int) int {
+	var pad [64]int
+	pad[n%64] = n
+	return sbRecurse(n+1) + pad[(n+1)%64]
 }
 
 // ---------------------------------------------------------------- universe dump
@@ -661,10 +728,49 @@ type sbObs struct {
 	K      int      `json:"k"`
 	Out    string   `json:"out"` // val | err | panic | budget | hang | crash | exit | nilres
 	Events []string `json:"events"`
+	Host   string   `json:"host"` // the host after the probe: up | exit | fatal | stopped | starved (see the head of this file)
 	Note   string   `json:"note,omitempty"`
 }
 
 const sbProbeTimeout = 8 * time.Second
+
+// sbMaxStack: the bound every host of this family puts on its goroutine stacks.
+const sbMaxStack = 16 << 20
+
+// sbDeath classifies the end of a host process during a probe from what the Go runtime wrote and how the
+// process ended: out, host, and whether the end is an observation of the effect (event "exit" / "fatal").
+func sbDeath(text string, signaled, timedOut bool, status string) (out, host, event, note string) {
+	switch {
+	case timedOut:
+		return "hang", "stopped", "", ""
+	case strings.Contains(text, "fatal error: runtime: out of memory") || strings.Contains(text, "cannot allocate memory") ||
+		strings.Contains(text, "fatal error: out of memory"):
+		// the machine refused memory: whether that happens is decided by the machine, not by the library
+		return "crash", "starved", "", trunc(sbFatalLine(text), 200)
+	case strings.Contains(text, "fatal error:") || strings.Contains(text, "panic:") || strings.Contains(text, "goroutine "):
+		return "crash", "fatal", "fatal", trunc(sbFatalLine(text), 200)
+	case signaled:
+		return "crash", "starved", "", status // killed from outside (memory, ...): not an end the script brought about
+	}
+	return "exit", "exit", "exit", status
+}
+
+// sbFatalLine: the text from the first line of the Go runtime's report on.
+func sbFatalLine(text string) string {
+	at := -1
+	for _, m := range []string{"runtime: goroutine stack exceeds", "fatal error:", "panic:"} {
+		if i := strings.Index(text, m); i >= 0 && (at < 0 || i < at) {
+			at = i
+		}
+	}
+	if at < 0 {
+		return text
+	}
+	return text[at:]
+}
+
+// sbPhase, when set, is told what the host is about to do with the result of an evaluation.
+var sbPhase func(string)
 
 func sbEvalLine(env *zygo.Zlisp, text string) (kind string, shown string) {
 	zygo.VerifSetBudget(200000)
@@ -674,6 +780,9 @@ func sbEvalLine(env *zygo.Zlisp, text string) (kind string, shown string) {
 			kind, shown = "panic", fmt.Sprint(r)
 		}
 	}()
+	if sbPhase != nil {
+		sbPhase("eval")
+	}
 	v, err := env.EvalString(text)
 	if err != nil {
 		if strings.Contains(err.Error(), "verif: step budget exhausted") {
@@ -683,6 +792,10 @@ func sbEvalLine(env *zygo.Zlisp, text string) (kind string, shown string) {
 	}
 	if v == nil {
 		return "nilres", ""
+	}
+	// the host shows the value with the printer of the library, as an embedder and the repl do
+	if sbPhase != nil {
+		sbPhase("show")
 	}
 	s := v.SexpString(nil)
 	if len(s) > 1<<20 {
@@ -705,6 +818,7 @@ func sbWorker(args []string) int {
 	if err := os.Chdir(*dir); err != nil {
 		fatal("chdir: %v", err)
 	}
+	debug.SetMaxStack(sbMaxStack)
 	var jobs []sbJob
 	readLines(*jobsPath, func(line []byte) {
 		var j sbJob
@@ -747,6 +861,7 @@ func sbWorker(args []string) int {
 		fatal("inflight: %v", err)
 	}
 	fmt.Fprintf(res, "{\"hello\":true,\"inotify\":%v}\n", w.ino)
+	sbPhase = func(ph string) { inflF.WriteAt([]byte(fmt.Sprintf("%-6s", ph)), 12) }
 	// one executor goroutine; the probes of one session (one vector) share an
 	// interpreter as long as it stays healthy, like the lines of a repl session
 	type lineRes struct{ kind, shown string }
@@ -816,7 +931,7 @@ func sbWorker(args []string) int {
 	}()
 	timer := time.NewTimer(time.Hour)
 	for _, j := range jobs {
-		inflF.WriteAt([]byte(fmt.Sprintf("%-12d", j.K)), 0)
+		inflF.WriteAt([]byte(fmt.Sprintf("%-12d%-6s", j.K, "eval")), 0)
 		so, se := sizeOf(outF), sizeOf(errF)
 		req <- j
 		var lr []lineRes
@@ -852,9 +967,10 @@ func sbWorker(args []string) int {
 			}
 		}
 		syscall.Chdir(*dir)
-		o := sbObs{K: j.K, Out: out, Events: sortedKeys(evs)}
+		// (this line is the host's answer after the probe: it is still there)
+		o := sbObs{K: j.K, Out: out, Events: sortedKeys(evs), Host: "up"}
 		if hang {
-			o.Out = "hang"
+			o.Out, o.Host = "hang", "stopped"
 		}
 		b, _ := json.Marshal(o)
 		res.Write(append(b, '\n'))
@@ -985,9 +1101,14 @@ func (r *sbRunner) runWorker(jobs []sbJob) map[int]sbObs {
 			break
 		}
 		// the worker ended before its last job: the job in flight is the cause
-		infl := -1
+		infl, phase := -1, ""
 		if b, e := os.ReadFile(filepath.Join(ctl, "inflight")); e == nil {
-			infl, _ = strconv.Atoi(strings.TrimSpace(string(b)))
+			if f := strings.Fields(string(b)); len(f) > 0 {
+				infl, _ = strconv.Atoi(f[0])
+				if len(f) > 1 {
+					phase = f[1]
+				}
+			}
 		}
 		at := -1
 		for i, j := range pending {
@@ -999,24 +1120,18 @@ func (r *sbRunner) runWorker(jobs []sbJob) map[int]sbObs {
 			fatal("sandbox worker failed before its first probe: %v\n%s", err, sbReadTail(filepath.Join(ctl, "stderr")))
 		}
 		if _, have := got[infl]; !have {
-			stderr := sbReadTail(filepath.Join(ctl, "stderr"))
+			stderr := sbReadHead(filepath.Join(ctl, "stderr"))
 			o := sbObs{K: infl, Events: []string{}}
 			w := sbNewWatch(dir, fsec, esec)
 			evs := w.collect(stderr, sbReadTail(filepath.Join(ctl, "stdout")))
 			w.close()
-			switch {
-			case err != nil && err.Error() == "timeout":
-				o.Out = "hang"
-			case strings.Contains(stderr, "fatal error:") || strings.Contains(stderr, "panic:") || strings.Contains(stderr, "goroutine "):
-				o.Out = "crash"
-				o.Note = trunc(stderr, 200)
-			case sbSignaled(err):
-				o.Out = "crash" // killed from outside (memory, ...): not an exit the script asked for
-				o.Note = fmt.Sprint(err)
-			default:
-				o.Out = "exit"
-				evs["exit"] = true
-				o.Note = fmt.Sprint(err)
+			var ev string
+			o.Out, o.Host, ev, o.Note = sbDeath(stderr, sbSignaled(err), err != nil && err.Error() == "timeout", fmt.Sprint(err))
+			if ev != "" {
+				evs[ev] = true
+			}
+			if phase == "show" && o.Note != "" {
+				o.Note = "(while the host printed the result) " + o.Note
 			}
 			o.Events = sortedKeys(evs)
 			got[infl] = o
@@ -1034,6 +1149,27 @@ func sbSignaled(err error) bool {
 		}
 	}
 	return false
+}
+
+// sbReadHead: the whole file up to 4 MB, of a longer one the first 3 MB and the last MB (the report of the
+// Go runtime on a fatal error starts with its cause and can be long).
+func sbReadHead(p string) string {
+	f, err := os.Open(p)
+	if err != nil {
+		return ""
+	}
+	defer f.Close()
+	fi, err := f.Stat()
+	if err != nil {
+		return ""
+	}
+	if fi.Size() <= 4<<20 {
+		b, _ := io.ReadAll(f)
+		return string(b)
+	}
+	b := make([]byte, 3<<20)
+	n, _ := io.ReadFull(f, b)
+	return string(b[:n]) + "\n...\n" + sbReadTail(p)
 }
 
 func sbReadTail(p string) string {
@@ -1080,7 +1216,7 @@ func (r *sbRunner) startRepl() *sbRepl {
 	}
 	p.cmd = exec.Command(r.zygoBin, "-sandbox", "-quiet", "-no-liner")
 	p.cmd.Dir = dir
-	p.cmd.Env = sbChildEnv(dir, esec)
+	p.cmd.Env = append(sbChildEnv(dir, esec), "ZV_MAXSTACK="+strconv.Itoa(sbMaxStack))
 	p.cmd.Stdin, p.cmd.Stdout, p.cmd.Stderr = inR, outW, outW
 	if err := p.cmd.Start(); err != nil {
 		fatal("cannot start %s: %v", r.zygoBin, err)
@@ -1198,9 +1334,10 @@ func (r *sbRunner) runCmd(jobs []sbJob) map[int]sbObs {
 		fmt.Fprintf(&in, "(println \"@@ZVE %d\")\n(+ 40 2)\n(println \"@@ZVF %d\")\n", j.K, j.K)
 		p.in.Write(in.Bytes())
 		seg, ok, timedOut := p.until(fmt.Sprintf("@@ZVE %d", j.K), sbProbeTimeout+time.Duration(len(j.Lines))*time.Second)
-		o := sbObs{K: j.K, Out: "val", Events: []string{}}
+		o := sbObs{K: j.K, Out: "val", Events: []string{}, Host: "up"}
 		evs := map[string]bool{}
 		if ok {
+			// (the sentinel after the probe was evaluated: the host is still there and answers)
 			if i := strings.Index(seg, fmt.Sprintf("@@ZVB %d", j.K)); i >= 0 {
 				seg = seg[i:]
 			}
@@ -1221,24 +1358,17 @@ func (r *sbRunner) runCmd(jobs []sbJob) map[int]sbObs {
 			for k, v := range p.w.collect(seg) {
 				evs[k] = v
 			}
-			switch {
-			case timedOut:
-				o.Out = "hang"
+			status := ""
+			if timedOut {
 				p.cmd.Process.Kill()
 				p.stop()
-			default:
-				status := p.stop()
-				if strings.Contains(seg, "panic:") || strings.Contains(seg, "fatal error:") || strings.Contains(seg, "goroutine ") {
-					o.Out = "crash"
-					o.Note = trunc(seg, 200)
-				} else if strings.HasPrefix(status, "signal:") {
-					o.Out = "crash"
-					o.Note = status
-				} else {
-					o.Out = "exit"
-					evs["exit"] = true
-					o.Note = status
-				}
+			} else {
+				status = p.stop()
+			}
+			var ev string
+			o.Out, o.Host, ev, o.Note = sbDeath(seg, strings.HasPrefix(status, "signal:"), timedOut, status)
+			if ev != "" {
+				evs[ev] = true
 			}
 			p = nil
 		}
@@ -1274,6 +1404,7 @@ type sbEv struct {
 	Shape  string   `json:"shape"`
 	Out    string   `json:"out"`
 	Events []string `json:"events"`
+	Host   string   `json:"host"` // the host process after the probe: up | exit | fatal | stopped | starved
 	Text   string   `json:"text,omitempty"`
 	Detail string   `json:"detail,omitempty"`
 }
@@ -1323,6 +1454,9 @@ func (r *sbRunner) execute(vecs []sbVector, alone bool, w *ndWriter) {
 			name = v.Names[0]
 		}
 		for _, s := range sbShapes {
+			if s.value && (v.Pre != "" || v.Hist != "") {
+				continue
+			}
 			lines := sbRender(name, v.Route, s.args, strconv.Itoa(vi))
 			if v.Pre != "" && (v.Route == "eval" || v.Route == "sym") {
 				// the definitions and the probe in ONE text: bound at run time, before eval compiles the form
@@ -1385,6 +1519,9 @@ func (r *sbRunner) execute(vecs []sbVector, alone bool, w *ndWriter) {
 			if !ok || len(o.Events) == 0 || j.Cfg == "full" {
 				continue // (the control configuration is expected to raise events)
 			}
+			if len(o.Events) == 1 && o.Events[0] == "fatal" {
+				continue // (the end of a host is attributed to the probe in flight: nothing a neighbour in the batch can have caused)
+			}
 			j.Sess = -1
 			var single sbObs
 			if j.Cfg == "cmd" {
@@ -1396,6 +1533,11 @@ func (r *sbRunner) execute(vecs []sbVector, alone bool, w *ndWriter) {
 			o.Events = unionEvents(o.Events, single.Events)
 			if single.Out == "exit" {
 				o.Out = "exit"
+			}
+			for _, e := range o.Events {
+				if (e == "exit" || e == "fatal") && o.Host != "exit" {
+					o.Host = e
+				}
 			}
 			obs[j.K] = o
 		}
@@ -1415,7 +1557,10 @@ func (r *sbRunner) execute(vecs []sbVector, alone bool, w *ndWriter) {
 		if !ok {
 			fatal("probe %d of %s got no observation", k, vecs[p.vec].ID)
 		}
-		ev := sbEv{Shape: p.shape, Out: o.Out, Events: o.Events}
+		ev := sbEv{Shape: p.shape, Out: o.Out, Events: o.Events, Host: o.Host}
+		if ev.Host == "" {
+			fatal("probe %d of %s has no record of the host after it", k, vecs[p.vec].ID)
+		}
 		if ev.Events == nil {
 			ev.Events = []string{}
 		}
